@@ -40,7 +40,7 @@ class Graph:
 
 
 def walk(graph: Graph, init_state: dict, make_world, apply, check, *, merge: bool = True,
-         on_edge=None, max_edges: typing.Optional[int] = None, clone=copy.deepcopy):
+         on_edge=None, max_edges: typing.Optional[int] = None, clone=copy.deepcopy, visited=None):
     """
     make_world()                    -> concrete world for the initial state
     apply(world, act)               -> (world', raised: bool)   (may mutate world)
@@ -52,7 +52,8 @@ def walk(graph: Graph, init_state: dict, make_world, apply, check, *, merge: boo
     """
     executed = 0
     leaves = 0
-    visited = set()
+    if visited is None:
+        visited = set()
     init_k = key(init_state)
     stack = [(init_k, make_world(), [])]
     visited.add(init_k)
@@ -88,25 +89,31 @@ def walk(graph: Graph, init_state: dict, make_world, apply, check, *, merge: boo
 _G = {}
 
 
-def _task(i):
+def _task(idxs):
     g = _G
     graph, init_state = g["graph"], g["init"]
     col = g["new_collector"]()
     acts = list(graph.actions(key(init_state)))
-    act, posts = acts[i]
-    world = g["make_world"]()
-    w2, raised = g["apply"](world, act)
-    idx = g["check"](col, w2, act, init_state, posts, raised, [act])
-    executed, leaves = 1, 0
-    if idx is not None:
+    visited = set()
+    executed, leaves = 0, 0
+    for i in idxs:
+        act, posts = acts[i]
+        world = g["make_world"]()
+        w2, raised = g["apply"](world, act)
+        idx = g["check"](col, w2, act, init_state, posts, raised, [act])
+        executed += 1
+        if idx is None:
+            continue
         sub_init = posts[idx]
+        if g["merge"] and key(sub_init) in visited:
+            continue
 
-        def mk():
+        def mk(w2=w2):
             return w2
 
         e, l = walk(graph, sub_init, mk, g["apply"],
-                    lambda w, a, pre, po, r, path: g["check"](col, w, a, pre, po, r, [act] + path),
-                    merge=g["merge"], max_edges=g["max_edges"])
+                    lambda w, a, pre, po, r, path, act=act: g["check"](col, w, a, pre, po, r, [act] + path),
+                    merge=g["merge"], max_edges=g["max_edges"], clone=g["clone"], visited=visited)
         executed += e
         leaves += l
     col.evaluations += executed
@@ -115,18 +122,19 @@ def _task(i):
 
 
 def walk_parallel(graph, init_state, make_world, apply, check, new_collector, *, merge=True,
-                  max_edges=None, procs=16):
+                  max_edges=None, procs=16, clone=copy.deepcopy):
     """check(col, world, act, pre, posts, raised, path) -> idx | None.  Returns list of collectors."""
     import multiprocessing as mp
 
     _G.clear()
     _G.update(graph=graph, init=init_state, make_world=make_world, apply=apply, check=check,
-              new_collector=new_collector, merge=merge, max_edges=max_edges)
+              new_collector=new_collector, merge=merge, max_edges=max_edges, clone=clone)
     n = len(list(graph.actions(key(init_state))))
     if n == 0:
         return []
-    if procs <= 1:
-        return [_task(i) for i in range(n)]
+    if procs <= 1 or graph.nedges < 3000:
+        return [_task(list(range(n)))]
+    groups = [list(range(n))[k::procs] for k in range(min(procs, n))]
     ctx = mp.get_context("fork")
-    with ctx.Pool(min(procs, n)) as pool:
-        return pool.map(_task, range(n), chunksize=1)
+    with ctx.Pool(len(groups)) as pool:
+        return pool.map(_task, groups, chunksize=1)
